@@ -695,19 +695,118 @@ func main() {
 				fmt.Sprintf("the scanner's first token of %q is %v, expected IDENTIFIER %q", tpl, toks, path))
 		}
 	}
-	segs := []string{"bar", "Bar_1", "x", "0", "12", "名前", "é", "_", "a²"}
+	// O6 (sentence 3 for identifiers, the other half): whatever the scanner hands over as an IDENTIFIER is an
+	// expression for the parser — the two agree that the expression ends where the scanner ended it.  The class of
+	// a disagreement is computed from the shape of the path.
+	o6 := func(path, rest string) {
+		if !validInput(path + rest) {
+			return
+		}
+		tpl := "@" + path + rest
+		toks, p := scanReal(tpl, keys, true)
+		if p {
+			return
+		}
+		for _, t := range toks {
+			if t.T != int(excellent.IDENTIFIER) {
+				continue
+			}
+			res.OracleChecks++
+			if _, err := excellent.Parse(t.S, nil); err != nil {
+				res.Fail(identifierClass(t.S), map[string]any{"template": tpl, "identifier": t.S},
+					fmt.Sprintf("the scanner cuts %q out of %q as an identifier expression, the parser rejects it: %v", t.S, tpl, err))
+			}
+		}
+	}
+	segs := []string{"bar", "Bar_1", "x", "0", "12", "名前", "é", "_", "a²", "2factor", "1_a", "true", "NULL", "False", "x𝒳", "ꭰ", "𝒳", "٣x", "1", "truex", "_0"}
 	rests := []string{"", ".", "..", ". x", ".!", ".@foo", "@", "@@", " ", "!", ".(", "(", ")", "-x", ".\n", ",", ".\"", "😀"}
+	for _, c := range []string{"foo.2factor", "foo.1_a", "foo.rows.0.1", "foo.true", "foo.bar𝒳", "foo.ꭰ", "foo.x²", "foo.0", "foo.0.x.1", "x.null.y"} {
+		o5(c, "")
+		o6(c, " and more")
+	}
 	for i := 0; i < nOr/3; i++ {
 		path := hx.Pick(ro, []string{"foo", "FOO", "Foo", "x", "名前"})
 		for j := ro.Intn(3); j > 0; j-- {
 			path += "." + hx.Pick(ro, segs)
 		}
-		o5(path, hx.Pick(ro, rests))
+		rest := hx.Pick(ro, rests)
+		o5(path, rest)
+		o6(path, rest)
+	}
+
+	// O1c (sentence 1 after an "@(" that never becomes an expression): in  b1 @( rest  where rest has no ")" at all,
+	// there is no expression, so everything is text outside expressions: "@@" yields "@" in rest as well
+	o1c := func(b1, rest string) {
+		if !validInput(b1+rest) || strings.Contains(rest, ")") {
+			return
+		}
+		w1, ok1 := specBody(b1, topSet)
+		w2, ok2 := specBody(rest, topSet)
+		if !ok1 || !ok2 {
+			return
+		}
+		if strings.HasSuffix(b1, "@") {
+			b1, w1 = b1+" ", w1+" "
+		}
+		res.OracleChecks++
+		tpl := b1 + "@(" + rest
+		res.Eval("O1c:"+tpl, exsx.Special(tpl))
+		want := w1 + "@(" + w2
+		got, hasErr, pn := templateReal(tpl, vals)
+		if pn != "" || hasErr || got != want {
+			res.Fail("body-passthrough:after-unterminated-expression", map[string]any{"template": tpl},
+				fmt.Sprintf("Template(%q) = %q err=%v panic=%q, statement prescribes %q", tpl, got, hasErr, pn, want))
+		}
+	}
+	for _, c := range [][2]string{{"Sad :", " write to help@@example.com"}, {"", "@@"}, {"x ", "1 + 2 @@ 3"}, {"", "\"a@@b"}, {"a@@b ", "no at"}, {"", " @@@ "}} {
+		o1c(c[0], c[1])
+	}
+	for i := 0; i < nOr/6; i++ {
+		o1c(randBody(ro), randBody(ro))
 	}
 
 	b, _ := json.Marshal(res.Distribution)
 	_ = b
 	res.Write(o)
+}
+
+// identifierClass: why the parser cannot take an identifier path the scanner delimited — from the path's shape
+func identifierClass(path string) string {
+	segs := strings.Split(path, ".")
+	allDigits := func(x string) bool {
+		for _, c := range x {
+			if c < '0' || c > '9' {
+				return false
+			}
+		}
+		return x != ""
+	}
+	for i, sg := range segs {
+		if i > 0 && (strings.EqualFold(sg, "true") || strings.EqualFold(sg, "false") || strings.EqualFold(sg, "null")) {
+			return "scanner-parser-agree:identifier-keyword-segment"
+		}
+	}
+	for i := 1; i+1 < len(segs); i++ {
+		if allDigits(segs[i]) && allDigits(segs[i+1]) {
+			return "scanner-parser-agree:identifier-consecutive-numeric-segments"
+		}
+	}
+	for i, sg := range segs {
+		if i > 0 && sg != "" && !allDigits(sg) {
+			if first := []rune(sg)[0]; unicode.IsDigit(first) {
+				return "scanner-parser-agree:identifier-segment-digit-led"
+			}
+		}
+	}
+	for _, c := range path {
+		if c != '.' && isNameRune(c) {
+			lt := lexReal("a" + string(c))
+			if !(len(lt) == 1 && lt[0].Kind == "NAME") {
+				return "scanner-parser-agree:identifier-rune-outside-grammar-letters"
+			}
+		}
+	}
+	return "scanner-parser-agree:identifier-rejected"
 }
 
 // does e contain a text literal (as the LEXER reads it from its opening quote) ... approximated
